@@ -383,6 +383,12 @@ SPECS['C13'] = dict(
                    'and is never delivered', timeout=(300, 1500), nontrivial_witness=True), 12, 30) + tiered(
         lambda: ch('limits', 'harness.c13', 'h_limits', 'maxlength never exceeded, connection unreadable/closed afterwards; BufferTooShort carries the whole '
                    'message and leaves the buffer untouched; offsets validated before I/O', timeout=(300, 1500), nontrivial_witness=True), 8, 12) + [
+    ] + parts(ch('send-buffer-kinds', 'harness.c13', 'h_send_kinds', '"from any bytes-like object": bytearray, memoryview, array(\'h\'), array(\'i\'), a two-dimensional byte view; byte length 0..4 (whole items), '
+                 'offset -1..5, size none or -1..5 (byte counts): the wire carries header + exactly those bytes of the object, invalid offset/size rejected before any I/O', timeout=(200, 900)), 5)
+      + parts(twin('send-buffer-kinds', 'harness.c13', 'h_send_kinds_twin', 'a send of >= 2 bytes from this kind of buffer exists'), 5)
+      + parts(ch('into-buffer-kinds', 'harness.c13', 'h_into_kinds', 'recv_bytes_into a destination of each kind (0..8 bytes, offset -1..9, message of 0..5 bytes): the message is stored at the byte offset exactly as '
+                 'received and its length returned, the rest of the destination untouched, BufferTooShort (whole message, destination untouched) iff it does not fit, the next message unaffected', timeout=(200, 900)), 5)
+      + parts(twin('into-buffer-kinds', 'harness.c13', 'h_into_kinds_twin', 'a message of >= 3 bytes stored at a non-zero offset of this kind of destination exists'), 5) + [
         ch('send-reach', 'harness.c13', 'h_send_twin', 'a run with split writes and an EINTR retry exists', timeout=(120, 600), expect='refuted', env={'VERIF_PART': '7', 'VERIF_NPART': '8'}, quick_only=True),
         ch('recv-reach', 'harness.c13', 'h_recv_twin', 'a run delivering both messages over >= 5 reads exists', timeout=(120, 600), expect='refuted', env={'VERIF_PART': '11', 'VERIF_NPART': '12'}, quick_only=True),
         ch('socket-blocking-mode', 'harness.c13', 'h_socket_blocking', 'SocketListener.accept (after 0..2 EINTRs) and SocketClient with no / zero / positive socket default timeout: the '
